@@ -33,7 +33,11 @@ func main() {
 	scale := flag.Int("scale", 1, "case-count multiplier (widened search)")
 	out := flag.String("out", "/verif/.work", "output directory")
 	only := flag.Int("only", -1, "emit only the case with this index (replay)")
+	first := flag.String("first", "", "run one first-call probe of the `fresh` stream in this (new) process and exit")
 	flag.Parse()
+	if *first != "" {
+		runFirst(*first)
+	}
 
 	f, ok := streams[*stream]
 	if !ok {
